@@ -445,4 +445,626 @@ theorem createFlagsV2_val (ty core h boot : Nat) (enc : Bool) (ht : ty < 2 ^ 4) 
     rw [show ((1 : Int)) = ((1 : Nat) : Int) from rfl]
     simp only [pyShl_nat, pyOr_nat, e1, e2, e3, e4]
 
+
+/-! ### signature block layout -/
+
+theorem al8_spec (n : Nat) : n ≤ al8 n ∧ al8 n % 8 = 0 ∧ al8 n < n + 8 := by
+  have h := alignNat_spec n 8 (by decide)
+  exact ⟨h.2.1, h.1, h.2.2⟩
+
+theorem sbStep_zero (aligned : Bool) (st : Nat × Nat) : sbStep aligned st 0 = (0, st) := by
+  simp [sbStep]
+
+theorem sbStep_pos (aligned : Bool) (st : Nat × Nat) (size : Nat) (h : size ≠ 0) :
+    (sbStep aligned st size).2 = ((sbStep aligned st size).1, size) ∧
+    st.1 + st.2 ≤ (sbStep aligned st size).1 ∧
+    (aligned = true → (sbStep aligned st size).1 % 8 = 0 ∧ (sbStep aligned st size).1 < st.1 + st.2 + 8) ∧
+    (aligned = false → (sbStep aligned st size).1 = st.1 + st.2) := by
+  simp only [sbStep, if_neg h]
+  cases aligned
+  · simp
+  · simp only [if_true]
+    have := al8_spec (st.1 + st.2)
+    exact ⟨trivial, this.1, fun _ => ⟨this.2.1, this.2.2⟩, fun h => by cases h⟩
+
+/-- the running end `last_offset + last_block_size` after a step -/
+def stEnd (st : Nat × Nat) : Nat := st.1 + st.2
+
+theorem sbStep_end (aligned : Bool) (st : Nat × Nat) (size : Nat) :
+    stEnd st ≤ stEnd (sbStep aligned st size).2 ∧
+    (size ≠ 0 → stEnd st ≤ (sbStep aligned st size).1 ∧ stEnd (sbStep aligned st size).2 = (sbStep aligned st size).1 + size) := by
+  by_cases h : size = 0
+  · subst h; rw [sbStep_zero]; exact ⟨Nat.le_refl _, fun h => absurd rfl h⟩
+  · obtain ⟨h1, h2, _, _⟩ := sbStep_pos aligned st size h
+    rw [h1]
+    simp only [stEnd] at *
+    exact ⟨by omega, fun _ => ⟨h2, trivial⟩⟩
+
+theorem sbLayout_eq (v : Ver) (sb : SigBlock) :
+    sbLayout v sb =
+      let aligned := v == .v1
+      let fixed := (v.sbLayout).size
+      let st0 : Nat × Nat := (0, if aligned then al8 fixed else fixed)
+      let r1 := sbStep aligned st0 sb.srk.length
+      let r2 := sbStep aligned r1.2 (sb.sigSize v)
+      let r3 := sbStep aligned r2.2 sb.cert.length
+      let r4 := sbStep aligned r3.2 sb.blobLen
+      ⟨r1.1, r2.1, r3.1, r4.1, stEnd r4.2⟩ := rfl
+
+theorem sbLayout_fixed (v : Ver) : (v.sbLayout).size = 16 := by cases v <;> rfl
+
+
+theorem sbStep_off_zero (aligned : Bool) (st : Nat × Nat) (size : Nat) (h : size = 0) : (sbStep aligned st size).1 = 0 := by
+  subst h; rw [sbStep_zero]
+
+theorem sbStep_aligned (st : Nat × Nat) (size : Nat) : (sbStep true st size).1 % 8 = 0 := by
+  by_cases h : size = 0
+  · rw [sbStep_off_zero _ _ _ h]
+  · exact ((sbStep_pos true st size h).2.2.1 rfl).1
+
+/-- offsets of the four optional blocks after `update_fields`: every present block starts after the fixed header and after
+    every earlier present block, ends inside the signature block; absent blocks have offset 0 -/
+theorem sigblock_layout (v : Ver) (sb : SigBlock) :
+    let o := sbLayout v sb
+    let s1 := sb.srk.length
+    let s2 := sb.sigSize v
+    let s3 := sb.cert.length
+    let s4 := sb.blobLen
+    (s1 = 0 → o.srkOff = 0) ∧ (s2 = 0 → o.sigOff = 0) ∧ (s3 = 0 → o.certOff = 0) ∧ (s4 = 0 → o.blobOff = 0) ∧
+    (s1 ≠ 0 → 16 ≤ o.srkOff ∧ o.srkOff + s1 ≤ o.length) ∧
+    (s2 ≠ 0 → 16 ≤ o.sigOff ∧ (s1 ≠ 0 → o.srkOff + s1 ≤ o.sigOff) ∧ o.sigOff + s2 ≤ o.length) ∧
+    (s3 ≠ 0 → 16 ≤ o.certOff ∧ (s1 ≠ 0 → o.srkOff + s1 ≤ o.certOff) ∧ (s2 ≠ 0 → o.sigOff + s2 ≤ o.certOff) ∧
+              o.certOff + s3 ≤ o.length) ∧
+    (s4 ≠ 0 → 16 ≤ o.blobOff ∧ (s1 ≠ 0 → o.srkOff + s1 ≤ o.blobOff) ∧ (s2 ≠ 0 → o.sigOff + s2 ≤ o.blobOff) ∧
+              (s3 ≠ 0 → o.certOff + s3 ≤ o.blobOff) ∧ o.blobOff + s4 = o.length) ∧
+    16 ≤ o.length ∧
+    (v = .v1 → o.srkOff % 8 = 0 ∧ o.sigOff % 8 = 0 ∧ o.certOff % 8 = 0 ∧ o.blobOff % 8 = 0) := by
+  intro o s1 s2 s3 s4
+  have ho : o = sbLayout v sb := rfl
+  rw [sbLayout_eq] at ho
+  simp only at ho
+  generalize hst0 : ((0, if (v == Ver.v1) = true then al8 (v.sbLayout).size else (v.sbLayout).size) : Nat × Nat) = st0 at ho
+  have e0 : 16 ≤ stEnd st0 := by
+    rw [← hst0, sbLayout_fixed]
+    simp only [stEnd]
+    have := al8_spec 16
+    split <;> omega
+  generalize hr1 : sbStep (v == Ver.v1) st0 sb.srk.length = r1 at ho
+  generalize hr2 : sbStep (v == Ver.v1) r1.2 (sb.sigSize v) = r2 at ho
+  generalize hr3 : sbStep (v == Ver.v1) r2.2 sb.cert.length = r3 at ho
+  generalize hr4 : sbStep (v == Ver.v1) r3.2 sb.blobLen = r4 at ho
+  have f1 := sbStep_end (v == Ver.v1) st0 sb.srk.length
+  have f2 := sbStep_end (v == Ver.v1) r1.2 (sb.sigSize v)
+  have f3 := sbStep_end (v == Ver.v1) r2.2 sb.cert.length
+  have f4 := sbStep_end (v == Ver.v1) r3.2 sb.blobLen
+  have z1 := sbStep_off_zero (v == Ver.v1) st0 sb.srk.length
+  have z2 := sbStep_off_zero (v == Ver.v1) r1.2 (sb.sigSize v)
+  have z3 := sbStep_off_zero (v == Ver.v1) r2.2 sb.cert.length
+  have z4 := sbStep_off_zero (v == Ver.v1) r3.2 sb.blobLen
+  rw [hr1] at f1 z1; rw [hr2] at f2 z2; rw [hr3] at f3 z3; rw [hr4] at f4 z4
+  have a1 : v = .v1 → r1.1 % 8 = 0 ∧ r2.1 % 8 = 0 ∧ r3.1 % 8 = 0 ∧ r4.1 % 8 = 0 := by
+    intro hv; subst hv
+    rw [← hr1, ← hr2, ← hr3, ← hr4]
+    exact ⟨sbStep_aligned _ _, sbStep_aligned _ _, sbStep_aligned _ _, sbStep_aligned _ _⟩
+  rw [ho]
+  simp only
+  show (s1 = 0 → r1.1 = 0) ∧ (s2 = 0 → r2.1 = 0) ∧ (s3 = 0 → r3.1 = 0) ∧ (s4 = 0 → r4.1 = 0) ∧ _
+  refine ⟨z1, z2, z3, z4, ?_, ?_, ?_, ?_, ?_, a1⟩
+  · intro h; have := f1.2 h; omega
+  · intro h; have := f2.2 h
+    refine ⟨by omega, fun h1 => ?_, by omega⟩
+    have := f1.2 h1; omega
+  · intro h; have := f3.2 h
+    refine ⟨by omega, fun h1 => ?_, fun h2 => ?_, by omega⟩
+    · have := f1.2 h1; omega
+    · have := f2.2 h2; omega
+  · intro h; have := f4.2 h
+    refine ⟨by omega, fun h1 => ?_, fun h2 => ?_, fun h3 => ?_, by omega⟩
+    · have := f1.2 h1; omega
+    · have := f2.2 h2; omega
+    · have := f3.2 h3; omega
+  · omega
+
+
+/-! ### slice assignment on the signature-block buffer -/
+
+theorem blitL_length (buf : Bytes) (off L : Nat) (d : Bytes) (h : off + L ≤ buf.length) (hd : d.length = L) :
+    (blitL buf off L d).length = buf.length := by
+  simp only [blitL, List.length_append, List.length_take, List.length_drop]
+  omega
+
+theorem take_blitL (buf : Bytes) (off L : Nat) (d : Bytes) (n : Nat) (h1 : n ≤ off) (h2 : n ≤ buf.length) :
+    (blitL buf off L d).take n = buf.take n := by
+  simp only [blitL, List.append_assoc]
+  rw [List.take_append_of_le_length (by rw [List.length_take]; omega), List.take_take]
+  congr 1
+  omega
+
+theorem blitB_length (buf : Bytes) (off : Nat) (d : Bytes) (h : off + d.length ≤ buf.length) :
+    (blitB buf off d).length = buf.length := by
+  unfold blitB
+  split
+  · rfl
+  · exact blitL_length buf off d.length d h rfl
+
+theorem take_blitB (buf : Bytes) (off : Nat) (d : Bytes) (n : Nat) (h : d = [] ∨ (n ≤ off ∧ n ≤ buf.length)) :
+    (blitB buf off d).take n = buf.take n := by
+  unfold blitB
+  split
+  · rfl
+  · rcases h with h | h
+    · subst h; simp at *
+    · exact take_blitL buf off d.length d n h.1 h.2
+
+theorem encodeSignature_length {s b : Bytes} (h : encodeSignature s = .ok b) : b.length = signatureLen s := by
+  unfold encodeSignature at h
+  unfold signatureLen
+  split at h
+  · cases h; simp [*]
+  · rename_i hne
+    cases hp : packChecked AhabConsts.signatureLayout.intWidths
+        [AhabConsts.signatureVersion, AhabConsts.signatureLayout.size + s.length, AhabConsts.signatureTag, AhabConsts.reserved] with
+    | error e => rw [hp] at h; cases h
+    | ok hb =>
+      rw [hp] at h; cases h
+      obtain ⟨hf, rfl⟩ := packChecked_ok hp
+      rw [if_neg hne, List.length_append, packInts_length _ _ hf]
+      rfl
+
+theorem encodeBlob_length {b : Blob} {bl : Bytes} (h : encodeBlob b = .ok bl) : bl.length = 8 + b.keyblob.length := by
+  unfold encodeBlob at h
+  cases hp : packChecked AhabConsts.blobLayout.intWidths
+      [AhabConsts.blobVersion, b.length, AhabConsts.blobTag, b.flags, b.size / 8, b.algorithm, b.mode] with
+  | error e => rw [hp] at h; cases h
+  | ok hb =>
+    rw [hp] at h; cases h
+    obtain ⟨hf, rfl⟩ := packChecked_ok hp
+    rw [List.length_append, packInts_length _ _ hf]
+    rfl
+
+
+/-- the blob's header length field describes its bytes -/
+def BlobLenOK (sb : SigBlock) : Prop := ∀ b, sb.blob = some b → b.length = 8 + b.keyblob.length
+
+theorem sbLayoutWidths (v : Ver) : (v.sbLayout).intWidths = [1, 2, 1, 2, 2, 2, 2, 4] := by cases v <;> rfl
+
+theorem sbHeader_length {v : Ver} {o : SbOffsets} {k : Nat} {hdr : Bytes} (h : sbHeader v o k = .ok hdr) : hdr.length = 16 := by
+  unfold sbHeader at h
+  obtain ⟨hf, rfl⟩ := packChecked_ok h
+  rw [packInts_length _ _ hf, sbLayoutWidths]; rfl
+
+theorem zerosB_length (n : Nat) : (zerosB n).length = n := by simp [zerosB]
+
+theorem sigSize_zero_sig (v : Ver) (sb : SigBlock) (h : sb.sigSize v = 0) : signatureLen sb.signature = 0 := by
+  unfold SigBlock.sigSize at h
+  cases v
+  · exact h
+  · simp only at h
+    split at h
+    · rename_i he; simp [signatureLen, he]
+    · omega
+
+theorem sigSize_ge (v : Ver) (sb : SigBlock) :
+    signatureLen sb.signature ≤ sb.sigSize v ∧
+    (v = .v2 → sb.sigSize v ≠ 0 → signatureLen sb.signature + signatureLen sb.signature2 = sb.sigSize v) := by
+  unfold SigBlock.sigSize
+  cases v
+  · exact ⟨Nat.le_refl _, fun h => by cases h⟩
+  · simp only
+    split
+    · rename_i he; simp [signatureLen, he]
+    · exact ⟨by omega, fun _ _ => rfl⟩
+
+/-- the bytes of the signature block in front of the signature do not depend on signature(s), certificate or blob bytes;
+    the block has the computed length -/
+theorem sbTail_take (v : Ver) (sb : SigBlock) (buf sg sg2 bl : Bytes) (hb : BlobLenOK sb)
+    (hbuf : buf.length = (sbLayout v sb).length)
+    (hsg : sg.length = signatureLen sb.signature) (hsg2 : sg2.length = signatureLen sb.signature2)
+    (hbl : ∀ b, sb.blob = some b → bl.length = 8 + b.keyblob.length) :
+    (sbTail v sb (sbLayout v sb) buf sg sg2 bl).take (sbLayout v sb).sigOff = buf.take (sbLayout v sb).sigOff ∧
+    (sbTail v sb (sbLayout v sb) buf sg sg2 bl).length = (sbLayout v sb).length := by
+  have L := sigblock_layout v sb
+  simp only at L
+  obtain ⟨_, z2, z3, z4, _, p2, p3, p4, _, _⟩ := L
+  have hge := sigSize_ge v sb
+  generalize ho : sbLayout v sb = o at *
+  unfold sbTail
+  -- certificate and blob steps, shared by both cases
+  have tailStep : ∀ (buf4 : Bytes), buf4.length = o.length → buf4.take o.sigOff = buf.take o.sigOff →
+      (sb.sigSize v ≠ 0 ∨ o.sigOff = 0) →
+      ((blobStep sb o (blitB buf4 o.certOff sb.cert) bl).take o.sigOff = buf.take o.sigOff ∧
+       (blobStep sb o (blitB buf4 o.certOff sb.cert) bl).length = o.length) := by
+    intro buf4 l4 t4 hsig
+    have hsigOff_le : o.sigOff ≤ o.length := by
+      rcases hsig with h | h
+      · have := p2 h; omega
+      · omega
+    -- certificate
+    have l5 : (blitB buf4 o.certOff sb.cert).length = o.length := by
+      rw [blitB_length _ _ _ (by
+        by_cases hc : sb.cert.length = 0
+        · rw [z3 hc, hc]; omega
+        · have := p3 hc; omega), l4]
+    have t5 : (blitB buf4 o.certOff sb.cert).take o.sigOff = buf.take o.sigOff := by
+      rw [take_blitB _ _ _ _ (by
+        by_cases hc : sb.cert = []
+        · exact Or.inl hc
+        · right
+          have hc' : sb.cert.length ≠ 0 := fun h => hc (List.eq_nil_of_length_eq_zero h)
+          have := p3 hc'
+          rcases hsig with h | h
+          · have := this.2.2.1 h; omega
+          · omega), t4]
+    unfold blobStep
+    cases hblob : sb.blob with
+    | none => exact ⟨t5, l5⟩
+    | some b =>
+      simp only
+      have hbL : b.length = 8 + b.keyblob.length := hb b hblob
+      have hs4 : sb.blobLen = b.length := by simp [SigBlock.blobLen, hblob]
+      have hs4' : sb.blobLen ≠ 0 := by omega
+      have q4 := p4 hs4'
+      rw [hs4] at q4
+      refine ⟨?_, ?_⟩
+      · rw [take_blitL _ _ _ _ _ (by
+          rcases hsig with h | h
+          · have := q4.2.2.1 h; omega
+          · omega) (by omega), t5]
+      · rw [blitL_length _ _ _ _ (by omega) (by rw [hbl b hblob, hbL]), l5]
+  by_cases hs2 : sb.sigSize v = 0
+  · -- no signature: offset 0, nothing of the block is signed
+    have hz := sigSize_zero_sig v sb hs2
+    have hsgE : sg = [] := List.eq_nil_of_length_eq_zero (by rw [hsg, hz])
+    have hsE : sb.signature.isEmpty = true := by
+      unfold signatureLen at hz
+      split at hz
+      · assumption
+      · have : AhabConsts.signatureLayout.size = 8 := rfl
+        omega
+    subst hsgE
+    have b3 : (blitB buf o.sigOff ([] : Bytes)) = buf := by simp [blitB]
+    rw [b3]
+    have b4 : sig2Step v sb o buf [] sg2 = buf := by
+      unfold sig2Step
+      cases v
+      · rfl
+      · simp [hsE]
+    rw [b4]
+    exact tailStep buf hbuf rfl (Or.inr (z2 hs2))
+  · have q2 := p2 hs2
+    -- first signature
+    have l3 : (blitB buf o.sigOff sg).length = o.length := by
+      rw [blitB_length _ _ _ (by rw [hsg]; omega), hbuf]
+    have t3 : (blitB buf o.sigOff sg).take o.sigOff = buf.take o.sigOff :=
+      take_blitB _ _ _ _ (Or.inr ⟨Nat.le_refl _, by omega⟩)
+    -- second signature (v2)
+    have h4 : (sig2Step v sb o (blitB buf o.sigOff sg) sg sg2).length = o.length ∧
+        (sig2Step v sb o (blitB buf o.sigOff sg) sg sg2).take o.sigOff = buf.take o.sigOff := by
+      unfold sig2Step
+      cases v
+      · exact ⟨l3, t3⟩
+      · simp only
+        split
+        · exact ⟨l3, t3⟩
+        · have hsum := hge.2 rfl hs2
+          refine ⟨?_, ?_⟩
+          · rw [blitB_length _ _ _ (by rw [hsg, hsg2, l3]; omega), l3]
+          · rw [take_blitB _ _ _ _ (Or.inr ⟨by omega, by rw [l3]; omega⟩), t3]
+    exact tailStep _ h4.1 h4.2 (Or.inl hs2)
+
+
+theorem blitB_nil (buf : Bytes) (off : Nat) : blitB buf off [] = buf := by simp [blitB]
+
+theorem take_add_append (X s : Bytes) (k : Nat) : (X ++ s).take (X.length + k) = X ++ s.take k := by
+  rw [List.take_append, List.take_of_length_le (by omega)]
+  simp
+
+theorem sbHead_length (o : SbOffsets) (hdr srk : Bytes) (hh : hdr.length = 16) (h16 : 16 ≤ o.length)
+    (hs : srk.length = 0 ∨ o.srkOff + srk.length ≤ o.length) : (sbHead o hdr srk).length = o.length := by
+  unfold sbHead
+  have l1 : (blitB (zerosB o.length) 0 hdr).length = o.length := by
+    rw [blitB_length _ _ _ (by rw [hh, zerosB_length]; omega), zerosB_length]
+  rcases hs with hs | hs
+  · have : srk = [] := List.eq_nil_of_length_eq_zero hs
+    subst this; rw [blitB_nil]; exact l1
+  · rw [blitB_length _ _ _ (by rw [l1]; exact hs), l1]
+
+theorem encodeSigBlock_spec (v : Ver) (sb : SigBlock) (s : Bytes) (hb : BlobLenOK sb)
+    (h : encodeSigBlock v sb (sbLayout v sb) = .ok s) :
+    ∃ hdr, sbHeader v (sbLayout v sb) sb.keyId = .ok hdr ∧
+      s.take (sbLayout v sb).sigOff = (sbHead (sbLayout v sb) hdr sb.srk).take (sbLayout v sb).sigOff ∧
+      s.length = (sbLayout v sb).length := by
+  unfold encodeSigBlock at h
+  cases hh : sbHeader v (sbLayout v sb) sb.keyId with
+  | error e => rw [hh] at h; cases h
+  | ok hdr =>
+    rw [hh] at h; simp only at h
+    cases hsg : encodeSignature sb.signature with
+    | error e => rw [hsg] at h; cases h
+    | ok sg =>
+      rw [hsg] at h; simp only at h
+      cases hsg2 : encodeSignature sb.signature2 with
+      | error e => rw [hsg2] at h; cases h
+      | ok sg2 =>
+        rw [hsg2] at h; simp only at h
+        cases hbl : encodeBlobOpt sb with
+        | error e => rw [hbl] at h; cases h
+        | ok bl =>
+          rw [hbl] at h; cases h
+          have L := sigblock_layout v sb
+          simp only at L
+          have hlen := sbHead_length (sbLayout v sb) hdr sb.srk (sbHeader_length hh) L.2.2.2.2.2.2.2.2.1 (by
+            by_cases hs : sb.srk.length = 0
+            · exact Or.inl hs
+            · exact Or.inr (L.2.2.2.2.1 hs).2)
+          have hblen : ∀ b, sb.blob = some b → bl.length = 8 + b.keyblob.length := by
+            intro b hbs
+            unfold encodeBlobOpt at hbl
+            rw [hbs] at hbl
+            exact encodeBlob_length hbl
+          have := sbTail_take v sb (sbHead (sbLayout v sb) hdr sb.srk) sg sg2 bl hb hlen
+            (encodeSignature_length hsg) (encodeSignature_length hsg2) hblen
+          exact ⟨hdr, rfl, this.1, this.2⟩
+
+theorem sbo_ge (v : Ver) (n : Nat) : (v.hdrLayout).size + n * (v.iaeLayout).size ≤ sigBlockOffset v n :=
+  (al8_spec _).1
+
+/-- shape of the exported container and of the data that is signed -/
+theorem exportContainer_spec (v : Ver) (c : Container) (iaes : List Iae) (b : Bytes) (hb : BlobLenOK c.sb)
+    (h : exportContainerWith v c iaes = .ok b) :
+    ∃ hd a s hdr,
+      encodeHeader v (headerLength v iaes.length (sbLayout v c.sb).length) c.flags c.swVersion c.fuseVersion iaes.length
+        (sigBlockOffset v iaes.length) = .ok hd ∧
+      encodeIaes v.iaeLayout iaes = .ok a ∧ encodeSigBlock v c.sb (sbLayout v c.sb) = .ok s ∧
+      sbHeader v (sbLayout v c.sb) c.sb.keyId = .ok hdr ∧
+      b = hd ++ a ++ zerosB (sigBlockOffset v iaes.length - (hd ++ a).length) ++ s ∧
+      (hd ++ a ++ zerosB (sigBlockOffset v iaes.length - (hd ++ a).length)).length = sigBlockOffset v iaes.length ∧
+      b.length = sigBlockOffset v iaes.length + (sbLayout v c.sb).length ∧
+      b.take (sigBlockOffset v iaes.length + (sbLayout v c.sb).sigOff) =
+        hd ++ a ++ zerosB (sigBlockOffset v iaes.length - (hd ++ a).length) ++
+          (sbHead (sbLayout v c.sb) hdr c.sb.srk).take (sbLayout v c.sb).sigOff := by
+  unfold exportContainerWith at h
+  simp only at h
+  cases hh : encodeHeader v (headerLength v iaes.length (sbLayout v c.sb).length) c.flags c.swVersion c.fuseVersion iaes.length
+      (sigBlockOffset v iaes.length) with
+  | error e => rw [hh] at h; cases h
+  | ok hd =>
+    rw [hh] at h; simp only at h
+    cases ha : encodeIaes v.iaeLayout iaes with
+    | error e => rw [ha] at h; cases h
+    | ok a =>
+      rw [ha] at h; simp only at h
+      cases hs : encodeSigBlock v c.sb (sbLayout v c.sb) with
+      | error e => rw [hs] at h; cases h
+      | ok s =>
+        rw [hs] at h; cases h
+        obtain ⟨hdr, hhdr, htake, hslen⟩ := encodeSigBlock_spec v c.sb s hb hs
+        have hl1 := encodeHeader_length v _ _ _ _ _ _ hd hh
+        have hl2 := encodeIaes_length v.iaeLayout (iaeLayout_facts v).1 (iaeLayout_facts v).2.1 iaes a ha
+        have hge := sbo_ge v iaes.length
+        rw [(hdrLayout_widths v).2, (iaeLayout_facts v).2.2] at hge
+        have hX : (hd ++ a ++ zerosB (sigBlockOffset v iaes.length - (hd ++ a).length)).length = sigBlockOffset v iaes.length := by
+          simp only [List.length_append, zerosB_length, hl1, hl2]; omega
+        refine ⟨hd, a, s, hdr, rfl, rfl, rfl, hhdr, rfl, hX, ?_, ?_⟩
+        · rw [List.length_append, hX, hslen]
+        · generalize hXd : hd ++ a ++ zerosB (sigBlockOffset v iaes.length - (hd ++ a).length) = X at hX ⊢
+          rw [← hX, take_add_append, htake]
+
+
+theorem isEmpty_congr {a b : Bytes} (h : a.length = b.length) : a.isEmpty = b.isEmpty := by
+  cases a <;> cases b <;> simp_all
+
+theorem signatureLen_congr {a b : Bytes} (h : a.length = b.length) : signatureLen a = signatureLen b := by
+  unfold signatureLen
+  rw [isEmpty_congr h, h]
+
+theorem sbLayout_congr (v : Ver) (sb sb' : SigBlock) (h1 : sb'.srk.length = sb.srk.length)
+    (h2 : sb'.signature.length = sb.signature.length) (h3 : sb'.signature2.length = sb.signature2.length)
+    (h4 : sb'.cert.length = sb.cert.length) (h5 : sb'.blobLen = sb.blobLen) : sbLayout v sb' = sbLayout v sb := by
+  have hs : sb'.sigSize v = sb.sigSize v := by
+    unfold SigBlock.sigSize
+    rw [signatureLen_congr h2, signatureLen_congr h3, isEmpty_congr h2]
+  rw [sbLayout_eq, sbLayout_eq, h1, hs, h4, h5]
+
+/-- the signed data of a container does not depend on the bytes of the signature(s), of the certificate or of the blob -
+    only on their lengths (and on the blob's key identifier, which is stored in the block header) -/
+theorem signed_data_independent (v : Ver) (c c' : Container) (iaes : List Iae) (b b' : Bytes)
+    (hb : BlobLenOK c.sb) (hb' : BlobLenOK c'.sb)
+    (hf : c'.flags = c.flags) (hsw : c'.swVersion = c.swVersion) (hfu : c'.fuseVersion = c.fuseVersion)
+    (h1 : c'.sb.srk = c.sb.srk) (h2 : c'.sb.signature.length = c.sb.signature.length)
+    (h3 : c'.sb.signature2.length = c.sb.signature2.length) (h4 : c'.sb.cert.length = c.sb.cert.length)
+    (h5 : c'.sb.blobLen = c.sb.blobLen) (h6 : c'.sb.keyId = c.sb.keyId)
+    (h : exportContainerWith v c iaes = .ok b) (h' : exportContainerWith v c' iaes = .ok b') :
+    b'.take (sigBlockOffset v iaes.length + (sbLayout v c.sb).sigOff) =
+      b.take (sigBlockOffset v iaes.length + (sbLayout v c.sb).sigOff) := by
+  have ho := sbLayout_congr v c.sb c'.sb (by rw [h1]) h2 h3 h4 h5
+  obtain ⟨hd, a, s, hdr, e1, e2, _, e4, _, _, _, e8⟩ := exportContainer_spec v c iaes b hb h
+  obtain ⟨hd', a', s', hdr', e1', e2', _, e4', _, _, _, e8'⟩ := exportContainer_spec v c' iaes b' hb' h'
+  rw [ho, hf, hsw, hfu] at e1'
+  rw [e1] at e1'; cases e1'
+  rw [e2] at e2'; cases e2'
+  rw [ho, h6, e4] at e4'; cases e4'
+  rw [ho, h1] at e8'
+  rw [e8, e8']
+
+
+/-! ### offset assignment -/
+
+/-- every image sits where the loop of `update_fields` puts it: at its explicit offset, or at the cursor, and the cursor
+    moves to the aligned end (+ gap) of the image -/
+def Assigned (ch : Chip) (v : Ver) : Nat → List Placed → Prop
+  | _, [] => True
+  | cur, p :: ps =>
+    p.offset = (if p.entry.offset > 0 then p.entry.offset else cur) ∧ Assigned ch v (nextCursor ch v p.entry p.ready p.offset) ps
+
+def endCursor (ch : Chip) (v : Ver) : Nat → List Placed → Nat
+  | cur, [] => cur
+  | _, p :: ps => endCursor ch v (nextCursor ch v p.entry p.ready p.offset) ps
+
+/-- no explicit offset lies behind the cursor -/
+def ExplicitAhead (ch : Chip) (v : Ver) : Nat → List Placed → Prop
+  | _, [] => True
+  | cur, p :: ps => (p.entry.offset > 0 → cur ≤ p.entry.offset) ∧ ExplicitAhead ch v (nextCursor ch v p.entry p.ready p.offset) ps
+
+/-- increasing and non-overlapping, starting at or after `lo` -/
+def OrderedFrom : Nat → List Placed → Prop
+  | _, [] => True
+  | lo, p :: ps => lo ≤ p.offset ∧ OrderedFrom (p.offset + p.ready.size) ps
+
+theorem Assigned_append (ch : Chip) (v : Ver) : ∀ (l1 l2 : List Placed) (cur : Nat),
+    Assigned ch v cur (l1 ++ l2) ↔ Assigned ch v cur l1 ∧ Assigned ch v (endCursor ch v cur l1) l2
+  | [], l2, cur => by simp [Assigned, endCursor]
+  | p :: l1, l2, cur => by
+    simp only [List.cons_append, Assigned, endCursor, Assigned_append ch v l1 l2]
+    exact and_assoc.symm
+
+theorem placeEntries_assigned (ch : Chip) (v : Ver) (base : Nat) : ∀ (ers : List (Entry × Ready)) (cur : Nat),
+    Assigned ch v cur (placeEntries ch v base cur ers).1 ∧
+    (placeEntries ch v base cur ers).2 = endCursor ch v cur (placeEntries ch v base cur ers).1 ∧
+    (placeEntries ch v base cur ers).1.map (fun p => (p.entry, p.ready)) = ers ∧
+    ∀ p ∈ (placeEntries ch v base cur ers).1, p.iae = mkIae base p.offset p.entry p.ready
+  | [], cur => ⟨trivial, rfl, rfl, fun _ h => by cases h⟩
+  | (e, r) :: rest, cur => by
+    have ih := placeEntries_assigned ch v base rest (nextCursor ch v e r (if e.offset > 0 then e.offset else cur))
+    simp only [placeEntries, Assigned, endCursor, List.map_cons]
+    refine ⟨⟨trivial, ih.1⟩, ih.2.1, by rw [ih.2.2.1], ?_⟩
+    intro p hp
+    rcases List.mem_cons.1 hp with rfl | hp
+    · rfl
+    · exact ih.2.2.2 p hp
+
+def allPlaced (us : List UContainer) : List Placed := us.flatMap (·.placed)
+
+theorem updateContainers_assigned (c : Crypto.CryptoOps) (ch : Chip) (v : Ver) : ∀ (cs : List Container) (ix cur : Nat)
+    (us : List UContainer), updateContainers c ch v ix cur cs = .ok us → Assigned ch v cur (allPlaced us)
+  | [], _, _, us, h => by cases h; trivial
+  | ct :: rest, ix, cur, us, h => by
+    unfold updateContainers at h
+    cases hb : v.containerOffset ix with
+    | error e => rw [hb] at h; simp at h
+    | ok base =>
+      cases hr : readyEntries c ch v (if ct.sb.blob.isSome then ct.dek else none) ct.entries with
+      | error e => rw [hb, hr] at h; simp at h
+      | ok rs =>
+        rw [hb, hr] at h
+        simp only at h
+        cases hu : updateContainers c ch v (ix + 1) (placeEntries ch v base cur (ct.entries.zip rs)).2 rest with
+        | error e => rw [hu] at h; cases h
+        | ok us' =>
+          rw [hu] at h; cases h
+          have ih := updateContainers_assigned c ch v rest (ix + 1) _ us' hu
+          have hp := placeEntries_assigned ch v base (ct.entries.zip rs) cur
+          simp only [allPlaced, List.flatMap_cons]
+          rw [Assigned_append]
+          refine ⟨hp.1, ?_⟩
+          rw [← hp.2.1]
+          exact ih
+
+theorem validAlignment_pos (ch : Chip) (v : Ver) (flags : Nat) : 0 < max (validAlignment ch v flags) ch.row.minOffsetAlign := by
+  unfold validAlignment
+  split <;> omega
+
+theorem nextCursor_ge (ch : Chip) (v : Ver) (e : Entry) (r : Ready) (off : Nat) :
+    off + r.size + e.gapAfter ≤ nextCursor ch v e r off ∧
+    nextCursor ch v e r off % (max (validAlignment ch v e.flags) ch.row.minOffsetAlign) = 0 := by
+  unfold nextCursor validOffset
+  have := alignNat_spec (off + r.size + e.gapAfter) _ (validAlignment_pos ch v e.flags)
+  exact ⟨this.2.1, this.1⟩
+
+theorem OrderedFrom_mono : ∀ (ps : List Placed) (lo lo' : Nat), lo' ≤ lo → OrderedFrom lo ps → OrderedFrom lo' ps
+  | [], _, _, _, _ => trivial
+  | _ :: _, _, _, h, ⟨h1, h2⟩ => ⟨Nat.le_trans h h1, h2⟩
+
+/-- images placed by the loop never overlap as long as no explicit offset points behind the cursor -/
+theorem assigned_ordered (ch : Chip) (v : Ver) : ∀ (ps : List Placed) (cur : Nat),
+    Assigned ch v cur ps → ExplicitAhead ch v cur ps → OrderedFrom cur ps
+  | [], _, _, _ => trivial
+  | p :: ps, cur, ⟨ha, hrest⟩, ⟨he, herest⟩ => by
+    have hoff : cur ≤ p.offset := by
+      rw [ha]; split
+      · rename_i h; exact he h
+      · exact Nat.le_refl _
+    refine ⟨hoff, ?_⟩
+    have ih := assigned_ordered ch v ps _ hrest herest
+    exact OrderedFrom_mono ps _ _ (by have := (nextCursor_ge ch v p.entry p.ready p.offset).1; omega) ih
+
+theorem explicitAhead_of_auto (ch : Chip) (v : Ver) : ∀ (ps : List Placed) (cur : Nat),
+    (∀ p ∈ ps, p.entry.offset = 0) → ExplicitAhead ch v cur ps
+  | [], _, _ => trivial
+  | p :: ps, cur, h => by
+    refine ⟨fun hp => ?_, explicitAhead_of_auto ch v ps _ (fun q hq => h q (List.mem_cons_of_mem _ hq))⟩
+    have := h p (List.mem_cons_self); omega
+
+theorem OrderedFrom_ge : ∀ (ps : List Placed) (lo : Nat), OrderedFrom lo ps → ∀ p ∈ ps, lo ≤ p.offset
+  | [], _, _, _, h => by cases h
+  | q :: ps, lo, ⟨h1, h2⟩, p, hp => by
+    rcases List.mem_cons.1 hp with rfl | hp
+    · exact h1
+    · have := OrderedFrom_ge ps _ h2 p hp; omega
+
+theorem OrderedFrom_pairwise : ∀ (ps : List Placed) (lo : Nat), OrderedFrom lo ps →
+    ps.Pairwise (fun p q => p.offset + p.ready.size ≤ q.offset)
+  | [], _, _ => List.Pairwise.nil
+  | p :: ps, _, ⟨_, h2⟩ => List.Pairwise.cons (fun q hq => OrderedFrom_ge ps _ h2 q hq) (OrderedFrom_pairwise ps _ h2)
+
+
+/-! ### fixed container offsets -/
+
+theorem containerOffset_ok (v : Ver) (ix base : Nat) (h : v.containerOffset ix = .ok base) :
+    base = ix * v.containerSize ∧ ix ≤ 3 := by
+  unfold Ver.containerOffset at h
+  cases v
+  · simp only [AhabConsts.containerOffsetV1] at h
+    by_cases h1 : ((ix : Int) < 0)
+    · omega
+    · by_cases h2 : ((ix : Int) > 3)
+      · simp [h2] at h
+      · simp [h2, h1] at h
+        refine ⟨?_, by omega⟩
+        show _ = ix * 1024
+        omega
+  · simp only [AhabConsts.containerOffsetV2] at h
+    by_cases h1 : ((ix : Int) < 0)
+    · omega
+    · by_cases h2 : ((ix : Int) > 3)
+      · simp [h2] at h
+      · simp [h2, h1] at h
+        refine ⟨?_, by omega⟩
+        show _ = ix * 16384
+        omega
+
+theorem updateContainers_bases (c : Crypto.CryptoOps) (ch : Chip) (v : Ver) : ∀ (cs : List Container) (ix cur : Nat)
+    (us : List UContainer), updateContainers c ch v ix cur cs = .ok us →
+    us.length = cs.length ∧ ∀ k u, us[k]? = some u → u.index = ix + k ∧ u.base = (ix + k) * v.containerSize ∧ ix + k ≤ 3 ∧
+      cs[k]? = some u.cont
+  | [], _, _, us, h => by cases h; exact ⟨rfl, fun k u hk => by simp at hk⟩
+  | ct :: rest, ix, cur, us, h => by
+    unfold updateContainers at h
+    cases hb : v.containerOffset ix with
+    | error e => rw [hb] at h; simp at h
+    | ok base =>
+      cases hr : readyEntries c ch v (if ct.sb.blob.isSome then ct.dek else none) ct.entries with
+      | error e => rw [hb, hr] at h; simp at h
+      | ok rs =>
+        rw [hb, hr] at h
+        simp only at h
+        cases hu : updateContainers c ch v (ix + 1) (placeEntries ch v base cur (ct.entries.zip rs)).2 rest with
+        | error e => rw [hu] at h; cases h
+        | ok us' =>
+          rw [hu] at h; cases h
+          have ih := updateContainers_bases c ch v rest (ix + 1) _ us' hu
+          have hco := containerOffset_ok v ix base hb
+          refine ⟨by simp [ih.1], ?_⟩
+          intro k u hk
+          cases k with
+          | zero =>
+            simp only [List.getElem?_cons_zero, Option.some.injEq] at hk
+            subst hk
+            exact ⟨rfl, by simpa using hco.1, by simpa using hco.2, rfl⟩
+          | succ k =>
+            simp only [List.getElem?_cons_succ] at hk
+            have := ih.2 k u hk
+            refine ⟨by omega, ?_, by omega, by simpa using this.2.2.2⟩
+            rw [this.2.1]; congr 1; omega
+
 end SpsdkVerif.Ahab
